@@ -78,13 +78,17 @@ def base(ctx, fname, x, params):
     return getattr(F, fname)(x)
 
 
-def h_chain(ctx, fname, nmax, params=None, array=False):
+def h_chain(ctx, fname, nmax, params=None, array=False, inplace=False):
     algopy = symx.load_algopy()
     params = params or {}
     x = _x(ctx, DOMAINS[fname])
     vals = []
     for n in range(nmax + 1):
-        if array and ctx.mode == 'sym':
+        if inplace:
+            from .. import npx
+            buf = npx.sarr(np.array([x], dtype=object)) if ctx.mode == 'sym' else np.array([x])
+            v = _scalar(getattr(algopy.nthderiv, fname)(buf, out=buf, n=n))
+        elif array and ctx.mode == 'sym':
             from .. import npx
             v = call(algopy, fname, npx.sarr(np.array([x], dtype=object)), n, params)
         elif array:
@@ -153,6 +157,10 @@ def units(tier, seed):
         add('%s/n<=%d' % (fname, n), 'h_chain', fname=fname, nmax=n)
     for fname in ('exp', 'log', 'sqrt', 'sin', 'erf', 'arctan', 'reciprocal'):
         add('%s/array-arg/n<=3' % fname, 'h_chain', fname=fname, nmax=3, array=True)
+    for fname in DOMAINS:
+        if fname in ('polygamma', 'hyperu'):
+            continue
+        add('%s/out=x aliased/n<=3' % fname, 'h_chain', fname=fname, nmax=3, inplace=True)
     for m in ((0, 1, 2) if tier == 'quick' else (0, 1, 2, 3, 5)):
         add('polygamma(m=%d)/n<=%d' % (m, nmax), 'h_chain', fname='polygamma', nmax=nmax, params={'m': m})
     for a, b in ([('3/2', '1/2'), ('1', '3'), ('-1/2', '3/2')] if tier == 'quick' else
